@@ -210,6 +210,23 @@ def run(R, tier, seed, driver_ok):
         psd = np.dot(V * np.maximum(0, l[None, :]), V.T)
         lines.append(f'mmc_psdproj {d} {bits(V)} {bits(l)}')
         meta.append(('vec', psd.ravel(), 1e-10 * max(np.abs(psd).max(), 1e-300), 'mmc_psdproj', case))
+    # ---- a zero iteration budget: the iterations start from the initial matrix, so with none of them it is returned
+    for rep in range(2 if tier == 'quick' else 8):
+        d = int(rng.randint(2, 5))
+        X, y = zoo.blobs(rng, d)
+        idx, yy = zoo.pairs_from(X, y, rng, n=8, repeats=False)
+        B = rng.randn(d, d); A0 = B.dot(B.T) + np.eye(d)
+        init = ['identity', A0][rep % 2]
+        R.case(('c14-zero', X.tobytes().hex()[:48], rep % 2), True, branch='zero-budget')
+        try:
+            with warnings.catch_warnings():
+                warnings.simplefilter('ignore')
+                e0 = MMC(max_iter=0, init=init).fit(X[idx], yy)
+            want = np.eye(d) if rep % 2 == 0 else A0
+            if np.abs(e0.get_mahalanobis_matrix() - want).max() > 1e-9 * np.abs(want).max():
+                R.violation('MMC/zero-budget', 'MMC(max_iter=0) does not return the initial matrix', {'pairs': X[idx], 'y': yy})
+        except Exception as e:
+            R.violation(f'MMC/fit-raises-{type(e).__name__}/zero-budget', f'MMC(max_iter=0).fit raised {type(e).__name__}: {str(e)[:160]}', {'pairs': X[idx], 'y': yy})
     if driver_ok and lines:
         outs = lean_run(lines)
         for o, (kind, impl, tol, what, case) in zip(outs, meta):
